@@ -19,9 +19,11 @@ pub mod c18;
 pub mod c19;
 pub mod fmtwork;
 pub mod c08_lang;
+pub mod c09;
+pub mod c09_splice;
 
 pub fn all() -> Vec<PropertyDef> {
-    vec![c01::def(), c02::def(), c03::def(), c04::def(), c05::def(), c06::def(), c07::def(), c08::def(), c10::def(), c11::def(), c12::def(), c13::def(), c14::def(), c16::def(), c18::def(), c19::def()]
+    vec![c01::def(), c02::def(), c03::def(), c04::def(), c05::def(), c06::def(), c07::def(), c08::def(), c09::def(), c10::def(), c11::def(), c12::def(), c13::def(), c14::def(), c16::def(), c18::def(), c19::def()]
 }
 
 pub fn lookup(id: &str) -> Option<PropertyDef> {
